@@ -19,7 +19,8 @@ ID = "C03"
 ENGINE = "eqlmc-E1"
 RULE = ("cases = (variable set, condition tree c, surface form); for each, c / not c / not not c are built afresh and "
         "evaluated; all trees of depth<=d (negations at any depth included); non-trivial = rows(c) neither empty nor "
-        "the full product")
+        "the full product"
+        ' Wave 7: a negated leaf written once and used in several places (shared / per occurrence); for_all conditions alone and as operands, negated.')
 ASSUMPTIONS = ["attribute values non-falsy (falsy values: C19)", "row sets compared, not multiplicities"]
 
 GRID = grid_world("D")
